@@ -166,6 +166,15 @@ Theorem C09_built_prism_wf :
 Proof. exact build_wf. Qed.
 Print Assumptions C09_built_prism_wf.
 
+(** The stored alphabet is the set of bytes of the keys, strictly increasing as signed
+    chars (std::set<char>), hence duplicate-free. *)
+Theorem C09_alphabet :
+  forall keys,
+  asorted (alphabet_of keys) /\
+  forall c, In c (alphabet_of keys) <-> exists k, In k keys /\ In c k.
+Proof. exact alphabet_of_spec. Qed.
+Print Assumptions C09_alphabet.
+
 (** (e) ... and the unlimited result contains exactly the keys extending the query. *)
 Theorem C09_expand_members :
   forall (fcred : Type) (p : prism fcred) q v n,
